@@ -255,10 +255,27 @@ type pending struct {
 	done chan struct{}
 }
 
+// RunBounded is Run with a bound: a script that does not finish (a write that hangs inside the code
+// under test) ends with a "hung" observation, which no action of the specification matches.
+func RunBounded(sc *Script, bound time.Duration) *Result {
+	ch := make(chan *Result, 1)
+	partial := &core.Recorder{}
+	go func() { ch <- runScript(sc, partial) }()
+	select {
+	case r := <-ch:
+		return r
+	case <-time.After(bound):
+		partial.Emit("hung")
+		return &Result{Events: strings.Split(strings.TrimRight(string(partial.Bytes()), "\n"), "\n"),
+			Notes: []string{fmt.Sprintf("the script did not finish within %v; the goroutines it left behind are abandoned", bound)}}
+	}
+}
+
 // Run executes a script and returns its events.
-func Run(sc *Script) *Result {
+func Run(sc *Script) *Result { return runScript(sc, &core.Recorder{}) }
+
+func runScript(sc *Script, rec *core.Recorder) *Result {
 	res := &Result{}
-	rec := &core.Recorder{}
 	rng := rand.New(rand.NewSource(sc.Seed))
 	var mu sync.Mutex
 	note := func(f string, a ...interface{}) {
@@ -346,9 +363,13 @@ func Run(sc *Script) *Result {
 			time.Sleep(2 * time.Millisecond)
 		case "req":
 			join(st.C)
-			if dead[st.C] {
+			mu.Lock()
+			isDead := dead[st.C]
+			mu.Unlock()
+			if isDead {
 				continue
 			}
+			cl, rd, ac := clients[st.C], readers[st.C], apiConns[st.C]
 			p := &pending{done: make(chan struct{})}
 			pend[st.C] = p
 			rec.Emit("req", "c", st.C, "m", st.M, "s", st.S, "n", st.N)
@@ -361,9 +382,9 @@ func Run(sc *Script) *Result {
 				var got []byte
 				var closed bool
 				if sc.Mode == "proxy" {
-					head, got, closed = proxyExchange(clients[st.C], readers[st.C], st, note)
+					head, got, closed = proxyExchange(cl, rd, st, note)
 				} else {
-					head, got, closed = apiExchange(apiConns[st.C], clients[st.C], st, rand.New(rand.NewSource(seed)), note)
+					head, got, closed = apiExchange(ac, cl, st, rand.New(rand.NewSource(seed)), note)
 				}
 				ms := int(time.Since(t0) / time.Millisecond)
 				want := pattern(st.S + st.N)[st.S:]
